@@ -136,7 +136,20 @@ Charge(i, p, s) ==
     Min2(Min2(PilotEnergy(p, s), sess[i].pw * T), sess[i].cap - chg[i])
 
 Connected(i, k) == sess[i].arr <= k /\ k < sess[i].dep
-LastTs == LET D == {sess[i].dep : i \in 1..Len(sess)} \cup recomp
+\* `recomp` holds the scenario's EXTRA events (those the caller queues besides the sessions' plug-ins):
+\*   r < 1000          a Recompute event at period r;
+\*   r = 1000*i + x    a second, "stray" Unplug event for session i at period x > its departure (a duplicated or
+\*                     late departure notice - the caller may queue any event): when it is handled session i is not at
+\*                     its station any more (the station is vacant or has its next occupant), so it detaches nobody,
+\*                     but it IS an event of period x: it is recorded, it requests a recompute, and the run lasts
+\*                     until it has been handled.
+IsStray(r) == r >= 1000
+XTs(r) == IF IsStray(r) THEN r % 1000 ELSE r
+XSess(r) == r \div 1000
+ExtraEvents(R) == {[kind |-> "Recompute", ts |-> r, id |-> 100 + r] : r \in {x \in R : ~IsStray(x)}}
+                  \cup {[kind |-> "Unplug", ts |-> XTs(r), id |-> XSess(r)] : r \in {x \in R : IsStray(x)}}
+ExtraOK(R) == \A r \in R : IsStray(r) => (XSess(r) \in 1..Len(sess) /\ XTs(r) > sess[XSess(r)].dep)
+LastTs == LET D == {sess[i].dep : i \in 1..Len(sess)} \cup {XTs(r) : r \in recomp}
           IN CHOOSE m \in D : \A x \in D : x <= m
 
 Log(r) == IF Rec THEN Append(hist, r) ELSE hist
@@ -171,9 +184,10 @@ AddSession(v) ==
 Start(R, mr) ==
     /\ pc = "Setup" /\ R \in RecompSets /\ mr \in MRSet
     /\ Len(sess) > 0 \/ R # {}
+    /\ ExtraOK(R)
     /\ recomp' = R /\ MR' = mr
     /\ queue' = {[kind |-> "Plugin", ts |-> sess[i].arr, id |-> i] : i \in 1..Len(sess)}
-                \cup {[kind |-> "Recompute", ts |-> r, id |-> 100 + r] : r \in R}
+                \cup ExtraEvents(R)
     /\ pc' = "Loop"
     /\ hist' = Log([a |-> "start", sess |-> sess, recomp |-> R, volt |-> Volt, T |-> T,
                     mr |-> mr, ns |-> NS, vl |-> VL, menu |-> Menu, pu |-> PU,
@@ -436,10 +450,14 @@ EventOrder ==                       \* processed in non-decreasing (time, preced
     \A a, b \in 1..Len(evHist) : a < b => EKey(evHist[a]) <= EKey(evHist[b])
 ProcessedOnTime ==                  \* each event is handled in the period of its timestamp
     \A a \in 1..Len(evHist) : evHist[a].at = evHist[a].ts
-PlugOnce ==                         \* never two Plugin / two Unplug for one session
+StrayEntry(a) == evHist[a].kind = "Unplug" /\ (1000 * evHist[a].id + evHist[a].ts) \in recomp
+PlugOnce ==                         \* never two Plugin / two Unplug for one session (stray notices aside: they detach nobody)
     \A a, b \in 1..Len(evHist) :
-        (a # b /\ evHist[a].kind = evHist[b].kind /\ evHist[a].kind # "Recompute")
+        (a # b /\ evHist[a].kind = evHist[b].kind /\ evHist[a].kind # "Recompute" /\ ~StrayEntry(a) /\ ~StrayEntry(b))
             => evHist[a].id # evHist[b].id
+StrayDetachesNobody ==              \* a stray Unplug never changes who is connected (the session check of unplug)
+    [][(pc = "Proc" /\ batch # <<>> /\ Head(batch).kind = "Unplug"
+        /\ (1000 * Head(batch).id + Head(batch).ts) \in recomp) => occ' = occ]_vars
 ConnectedExactly ==                 \* connected exactly in [arrival, departure)
     pc = "Apply" => \A i \in 1..N : (occ[sess[i].st] = i) <=> Connected(i, t)
 OneOccupant ==
@@ -495,7 +513,7 @@ AppliedIsDef ==                     \* what the EVSE holds is the pilot of the l
 RejectChangesNothing == [][Reject => UNCHANGED durable]_vars
 
 \* ---- C05 ----  defined from the scenario and the invocation log only
-EventAt(k) == (\E i \in 1..N : sess[i].arr = k \/ sess[i].dep = k) \/ k \in recomp
+EventAt(k) == (\E i \in 1..N : sess[i].arr = k \/ sess[i].dep = k) \/ k \in {XTs(r) : r \in recomp}
 InvokedAt(k) == \E j \in 1..Len(invLog) : invLog[j] = k
 LastInvBefore(k) == LET S == {invLog[j] : j \in 1..Len(invLog)} \cap 0..(k-1)
                     IN IF S = {} THEN -1 ELSE CHOOSE m \in S : \A x \in S : x <= m
